@@ -58,7 +58,7 @@ PLAN = dict(
              timeout_quick=600, timeout_thorough=3600, args=["-coverage", "600"]),
     ],
     drive=[dict(bin="c09", args=["c09"])],
-    tv=[dict(glob="layout-*.ndjson", module="Trace_Layout", cfg="Trace_Layout.cfg", corrupt=["accepted"],
+    tv=[dict(glob="layout-*.ndjson", module="Trace_Layout", cfg="Trace_Layout.cfg", corrupt=["accepted"], timeout_thorough=3600,
              corrupt_filter=lambda e: e.get("ev") == "cand" and e["accepted"] is True and e["corr"] in DEFINITE)],
     extra_steps=[
         nested_selftest("layout-*.ndjson", "Trace_Layout", "Trace_Layout.cfg",
